@@ -48,6 +48,29 @@ func checkCmd(args []string) int {
 		cr.CheckRoutingFamily(entries)
 		return cr.Finish("proof", checkerCmd, commonTrusted, "one obligation per (emitted function, return site, clause) of the route*/ServeHTTP/splitPath contracts; all requests are quantified, programs are the enumerated corpus")
 	}
+	routeRule := "one obligation per (emitted function, return site or loop edge, clause) of the route*/ServeHTTP/splitPath contracts; all requests are quantified, programs are the enumerated corpus"
+	switch *prop {
+	case "C11":
+		entries := vc.SecurityCorpus(corpusDir, *tier)
+		entries = append(entries, vc.FixtureCorpus(*repo, "security_jwt", "security_jwt_apikey", "security_jwt_apikey_query", "middleware")...)
+		cr.CheckRoutingFamily(entries)
+		return cr.Finish("proof", checkerCmd, commonTrusted, routeRule)
+	case "C16":
+		entries := vc.RouteCorpus(corpusDir, "quick", seed)
+		entries = append(entries, vc.CorsCorpus(corpusDir, "quick")...)
+		entries = append(entries, vc.FixtureCorpus(*repo, "middleware", "security_jwt_apikey_query", "router")...)
+		if *tier != "quick" {
+			entries = append(entries, vc.SecurityCorpus(corpusDir, "quick")...)
+			entries = append(entries, vc.RouteCorpus(corpusDir, *tier, seed)[5:]...)
+		}
+		cr.CheckRoutingFamily(entries)
+		return cr.Finish("proof", checkerCmd, commonTrusted, routeRule)
+	case "C17":
+		entries := vc.CorsCorpus(corpusDir, *tier)
+		entries = append(entries, vc.FixtureCorpus(*repo, "cors_default")...)
+		cr.CheckRoutingFamily(entries)
+		return cr.Finish("proof", checkerCmd, commonTrusted, routeRule)
+	}
 	fmt.Println("ENGINE-ERROR: no check for property", *prop)
 	return 2
 }
